@@ -313,19 +313,19 @@ theorem muxSel_noKeys (pv : PVal) (cases : List MuxCaseD) (dflt : Option (String
   · cases heq
 
 set_option hygiene false in
-macro_rules | `(tactic| keeps_step) => `(tactic| ((with_reducible refine ih.dop _ _ _ ?_) <;> (try assumption)))
+local macro_rules | `(tactic| keeps_step) => `(tactic| ((with_reducible refine ih.dop _ _ _ ?_) <;> (try assumption)))
 set_option hygiene false in
-macro_rules | `(tactic| keeps_step) => `(tactic| ((with_reducible refine ih.items _ _ _ _ ?_) <;> (try assumption)))
+local macro_rules | `(tactic| keeps_step) => `(tactic| ((with_reducible refine ih.items _ _ _ _ ?_) <;> (try assumption)))
 set_option hygiene false in
-macro_rules | `(tactic| keeps_step) => `(tactic| ((with_reducible refine ih.sitems _ _ _ _ _ ?_) <;> (try assumption)))
+local macro_rules | `(tactic| keeps_step) => `(tactic| ((with_reducible refine ih.sitems _ _ _ _ _ ?_) <;> (try assumption)))
 set_option hygiene false in
-macro_rules | `(tactic| keeps_step) => `(tactic| ((with_reducible refine ih.param _ _ _ ?_) <;> (try first | assumption | (simp only [Param.noKeys, PKind.noKeys]; try assumption))))
+local macro_rules | `(tactic| keeps_step) => `(tactic| ((with_reducible refine ih.param _ _ _ ?_) <;> (try first | assumption | (simp only [Param.noKeys, PKind.noKeys]; try assumption))))
 set_option hygiene false in
-macro_rules | `(tactic| keeps_step) => `(tactic| ((with_reducible refine ih.params _ _ _ _ ?_) <;> (try assumption)))
+local macro_rules | `(tactic| keeps_step) => `(tactic| ((with_reducible refine ih.params _ _ _ _ ?_) <;> (try assumption)))
 set_option hygiene false in
-macro_rules | `(tactic| keeps_step) => `(tactic| ((with_reducible refine ih.keyvals _ _ ?_) <;> (try assumption)))
+local macro_rules | `(tactic| keeps_step) => `(tactic| ((with_reducible refine ih.keyvals _ _ ?_) <;> (try assumption)))
 set_option hygiene false in
-macro_rules | `(tactic| keeps_step) => `(tactic| ((with_reducible refine ih.comp _ _ _ ?_) <;> (try assumption)))
+local macro_rules | `(tactic| keeps_step) => `(tactic| ((with_reducible refine ih.comp _ _ _ ?_) <;> (try assumption)))
 
 theorem encKeeps_dop (fuel : Nat) (ih : EncKeeps fuel) (M) (d : Dop) (pv : PVal) (h : d.noKeys = true) :
     KeepsM EncState.maps M (encodeDop (fuel + 1) d pv) := by
